@@ -100,3 +100,83 @@ func VerifC11ScanBadger() {
 	defer s.Close()
 	longScan(s)
 }
+
+// concurrentWriters: two batches conditioned on the same state of one key are committed at the
+// same time (every interleaving of their engine calls within the delay bound): two compare-and-
+// swaps naming the same old value, or two put-if-absent on the same missing key, never both take
+// effect; the loser reports a failed condition and the key holds the winner's value.
+// Natively (where the engine's goroutines cannot be steered) the same scenario is repeated on
+// fresh keys with more writers.
+func concurrentWriters(impl storage.KvStorage) {
+	rounds, writers := 1, 2
+	if !zzverif.Symbolic() {
+		rounds, writers = zzverif.Param("native_rounds", 150), zzverif.Param("native_writers", 8)
+	}
+	absent := zzverif.Choose("absent", 2) == 1
+	v0 := zzverif.Bytes("v0", 1)
+	vals := [][]byte{zzverif.Bytes("w0", 1), zzverif.Bytes("w1", 1)}
+	zzverif.Assume(vals[0][0] != vals[1][0])
+	zzverif.Assume(vals[0][0] != v0[0] && vals[1][0] != v0[0])
+	for r := 0; r < rounds; r++ {
+		key := []byte{'k', byte('0' + r/100), byte('0' + r/10%10), byte('0' + r%10)}
+		if !absent {
+			b := impl.BeginBatchWrite()
+			b.Put(key, v0, 0)
+			zzverif.Assert(b.Commit(ctx) == nil, "setup put")
+		}
+		errs := make([]error, writers)
+		done := make(chan struct{}, writers)
+		zzverif.ExploreSchedules(zzverif.Param("preempt", 2))
+		for i := 0; i < writers; i++ {
+			i := i
+			val := vals[i%2]
+			if i >= 2 {
+				val = []byte{byte('A' + i)}
+			}
+			zzverif.Go("w"+string(rune('0'+i)), func() {
+				b := impl.BeginBatchWrite()
+				if absent {
+					b.PutIfNotExist(key, val, 0)
+				} else {
+					b.CAS(key, val, v0, 0)
+				}
+				errs[i] = b.Commit(ctx)
+				done <- struct{}{}
+			})
+		}
+		for i := 0; i < writers; i++ {
+			<-done
+		}
+		zzverif.StopExploring()
+		won := -1
+		for i, e := range errs {
+			if e == nil {
+				zzverif.Assert(won < 0, "two writers conditioned on the same state never both succeed")
+				won = i
+			} else {
+				zzverif.Assert(errClass(e) == 1, "the losing writer is told its condition failed")
+			}
+		}
+		zzverif.Assert(won >= 0, "one of the writers succeeds")
+		got, err := impl.Get(ctx, key)
+		zzverif.Assert(err == nil, "the key is stored")
+		if won < 2 {
+			zzverif.Assert(zzverif.BytesEq(got, vals[won]), "the key holds the winner's value")
+		}
+	}
+	zzverif.Cover("done")
+}
+
+// VerifC11ConcurrentBadger: two conditional batches at the same time on the Badger adapter.
+func VerifC11ConcurrentBadger() {
+	s, err := badgerkv.NewKvStorage(badgerkv.Config{Dir: zzverif.TempDir()})
+	zzverif.Assert(err == nil, "badger opens")
+	defer s.Close()
+	concurrentWriters(s)
+}
+
+// VerifC11ConcurrentTiKV: the same on the TiKV adapter.
+func VerifC11ConcurrentTiKV() { concurrentWriters(NewMockTiKV()) }
+
+// VerifC11ConcurrentMemkv: the same on the in-memory adapter.
+func VerifC11ConcurrentMemkv() { concurrentWriters(memkv.NewKvStorage()) }
